@@ -7,6 +7,7 @@ Import ListNotations.
 
 Section Net.
   Variables (L M : Type).      (* local states, messages *)
+  Variable cap : option nat.   (* capacity of every queue, in messages (a full queue blocks the sender); None = unbounded *)
 
   Inductive action :=
   | ALocal (f : L -> L)
@@ -27,6 +28,9 @@ Section Net.
     | x :: r, S j => x :: updp r j p
     end.
 
+  Definition room (q : list M) : bool :=
+    match cap with None => true | Some c => Nat.ltb (length q) c end.
+
   (* process i executes its next action, if it can *)
   Definition fire (s : net) (i : nat) : option net :=
     match nth_error (procs s) i with
@@ -36,8 +40,10 @@ Section Net.
         | [] => None
         | ALocal f :: r => Some {| procs := updp (procs s) i {| loc := f (loc p); prog := r |}; qs := qs s |}
         | ASend j g :: r =>
-            Some {| procs := updp (procs s) i {| loc := loc p; prog := r |};
-                    qs := updq (qs s) i j (qs s i j ++ [g (loc p)]) |}
+            if room (qs s i j)
+            then Some {| procs := updp (procs s) i {| loc := loc p; prog := r |};
+                         qs := updq (qs s) i j (qs s i j ++ [g (loc p)]) |}
+            else None
         | ARecv j h :: r =>
             match qs s j i with
             | [] => None
